@@ -203,6 +203,13 @@ def lattice_config(c):
     }
     if c.get("quantis"):
         cfg["engine0"] = dict(eng)
+    if c.get("multi_eng"):
+        # a legal but unusual configuration (examples/gromacs/H2_multi_engine): ensembles that list SEVERAL engines, in
+        # both orders; the move uses the first one listed.  The two engines differ observably and log which one ran.
+        cfg["engine"]["tag"] = "base"
+        cfg["engine_hot"] = dict(eng, tag="hot", p_up=0.5, p_down=0.375)
+        pat = [["engine"], ["engine", "engine_hot"], ["engine_hot", "engine"], ["engine_hot"], ["engine", "engine_hot"]]
+        cfg["simulation"]["ensemble_engines"] = [list(pat[i % len(pat)]) for i in range(n)]
     return cfg
 
 
